@@ -72,9 +72,5 @@ func (in *Inst) modPathLocs(mi ModItem, pre *SpecEnv, fieldAt map[string][]strin
 	}
 }
 
-// freshPred: generated "fresh-equivalent" predicates (C09); filled in fresh.go.
-func (env *SpecEnv) freshPred(name string, n *ast.CallExpr) (Val, bool) {
-	return Val{}, false
-}
 
 
